@@ -189,8 +189,9 @@ Proof.
 Qed.
 
 (* ---------- generic update of thread i: its handles are replaced by handles DERIVED from its old ones ---------- *)
+(* every cell of a new handle comes from some handle the thread held before (of at least the same strength): slice, split and merge *)
 Definition derived (th : thread) (hs' : gmap nat handle) : Prop :=
-  ∀ j h, hs' !! j = Some h → ∃ j0 h0, t_hs th !! j0 = Some h0 ∧ h_cells h ⊆ h_cells h0 ∧ (h_mut h = true → h_mut h0 = true).
+  ∀ j h c, hs' !! j = Some h → c ∈ h_cells h → ∃ j0 h0, t_hs th !! j0 = Some h0 ∧ c ∈ h_cells h0 ∧ (h_mut h = true → h_mut h0 = true).
 Definition disj_in (hs' : gmap nat handle) : Prop :=
   ∀ j j' h h', j ≠ j' → hs' !! j = Some h → hs' !! j' = Some h' → h_mut h = true → h_cells h ## h_cells h'.
 
@@ -210,23 +211,23 @@ Lemma handles_common s i th K' hs' :
   (∀ i1 t1 j1 h1, P i1 t1 j1 h1 → (i1 = i → t_K t1 = K') → hknow s (t_K t1) h1).
 Proof.
   intros HI Hth HK Hder Hdin P.
-  assert (Hanc : ∀ j h, hs' !! j = Some h → ∃ j0 h0, t_hs th !! j0 = Some h0 ∧ h_cells h ⊆ h_cells h0 ∧ (h_mut h = true → h_mut h0 = true)) by exact Hder.
+  assert (Hanc : ∀ j h c, hs' !! j = Some h → c ∈ h_cells h → ∃ j0 h0, t_hs th !! j0 = Some h0 ∧ c ∈ h_cells h0 ∧ (h_mut h = true → h_mut h0 = true)) by exact Hder.
   split_and!.
   - intros i1 t1 j1 h1 [[-> Hh]|(Hne & t & Ht & Hh & _)].
-    + destruct (Hanc _ _ Hh) as (j0 & h0 & H0 & Hsub & _). pose proof (inv_cells _ HI _ _ _ _ Hth H0). set_solver.
+    + intros c Hc. destruct (Hanc _ _ _ Hh Hc) as (j0 & h0 & H0 & Hsub & _). pose proof (inv_cells _ HI _ _ _ _ Hth H0). set_solver.
     + by eapply (inv_cells _ HI).
   - intros i1 t1 j1 h1 i2 t2 j2 h2 Hne [[-> Hh1]|(Hn1 & ta & Hta & Hh1 & _)] [[-> Hh2]|(Hn2 & tb & Htb & Hh2 & _)] Hm.
     + eapply Hdin; [|done|done|done]. congruence.
-    + destruct (Hanc _ _ Hh1) as (j0 & h0 & H0 & Hsub & Hmut).
+    + apply elem_of_disjoint. intros c Hc1 Hc2. destruct (Hanc _ _ _ Hh1 Hc1) as (j0 & h0 & H0 & Hsub & Hmut).
       assert ((i, j0) ≠ (i2, j2)) by congruence.
       pose proof (inv_disj _ HI _ _ _ _ _ _ _ _ H Hth H0 Htb Hh2 (Hmut Hm)). set_solver.
-    + destruct (Hanc _ _ Hh2) as (j0 & h0 & H0 & Hsub & Hmut).
+    + apply elem_of_disjoint. intros c Hc1 Hc2. destruct (Hanc _ _ _ Hh2 Hc2) as (j0 & h0 & H0 & Hsub & Hmut).
       assert ((i1, j1) ≠ (i, j0)) by congruence.
       pose proof (inv_disj _ HI _ _ _ _ _ _ _ _ H Hta Hh1 Hth H0 Hm). set_solver.
     + eapply (inv_disj _ HI); eauto.
   - intros i1 t1 j1 h1 [[-> Hh]|(Hne & t & Ht & Hh & HKt)] HKi c Hc.
-    + rewrite (HKi eq_refl). destruct (Hanc _ _ Hh) as (j0 & h0 & H0 & Hsub & Hmut).
-      pose proof (inv_know _ HI _ _ _ _ Hth H0 c ltac:(set_solver)) as Hk0.
+    + rewrite (HKi eq_refl). destruct (Hanc _ _ _ Hh Hc) as (j0 & h0 & H0 & Hsub & Hmut).
+      pose proof (inv_know _ HI _ _ _ _ Hth H0 c Hsub) as Hk0.
       destruct (h_mut h1) eqn:E1.
       * rewrite (Hmut eq_refl) in Hk0. set_solver.
       * destruct (h_mut h0); [|set_solver]. pose proof (inv_wr _ HI c). set_solver.
@@ -318,7 +319,7 @@ Qed.
 Lemma ok_parts o : ords_ok o = true → is_rel (o_dec o) = true ∧ is_acq (o_decload o) = true ∧ is_acq (o_uniq o) = true.
 Proof. unfold ords_ok. rewrite !andb_true_iff. tauto. Qed.
 Lemma derived_self th hs' : (∀ j h, hs' !! j = Some h → t_hs th !! j = Some h) → derived th hs'.
-Proof. intros H j h Hh. exists j, h. split_and!; [by apply H|done|done]. Qed.
+Proof. intros H j h c Hh Hc. exists j, h. split_and!; [by apply H|done|done]. Qed.
 Lemma disj_in_old s i th : Inv s → ths s !! i = Some th → disj_in (t_hs th).
 Proof. intros HI Hth j j' h h' Hne Hj Hj' Hm. eapply (inv_disj _ HI i th j h i th j' h'); eauto. congruence. Qed.
 Lemma sum_one_others s i th : held_sum s = 1 → ths s !! i = Some th → held th ≥ 1 →
@@ -349,8 +350,8 @@ Proof.
   - intros He. exfalso. apply (insert_non_empty _ _ _ He).
   - intros j0 h0 H0. destruct (decide (j0 = t_next th)) as [->|?]; [lia|]. rewrite lookup_insert_ne in H0 by done.
     pose proof (inv_keys _ HI _ _ _ _ Hth H0). lia.
-  - intros j0 h0 H0. destruct (decide (j0 = t_next th)) as [->|?].
-    + rewrite lookup_insert in H0. simplify_eq. exists j, h. simpl. split_and!; [done|done|done].
+  - intros j0 h0 c H0 Hc. destruct (decide (j0 = t_next th)) as [->|?].
+    + rewrite lookup_insert in H0. simplify_eq. exists j, h. simpl in *. split_and!; [done|set_solver|done].
     + rewrite lookup_insert_ne in H0 by done. exists j0, h0. done.
   - intros j1 j2 h1 h2 Hne H1 H2 Hm1.
     destruct (decide (j1 = t_next th)) as [->|?]; [rewrite lookup_insert in H1; by simplify_eq|].
@@ -396,9 +397,9 @@ Proof.
   - intros j0 h0 H0. destruct (Hlk _ _ H0) as [[-> _]|[[-> _]|(_ & _ & H1)]]; [lia| |].
     + pose proof (inv_keys _ HI _ _ _ _ Hth Hj). lia.
     + pose proof (inv_keys _ HI _ _ _ _ Hth H1). lia.
-  - intros j0 h0 H0. destruct (Hlk _ _ H0) as [[-> ->]|[[-> ->]|(_ & _ & H1)]].
-    + exists j, h. simpl. split_and!; [done|done|done].
-    + exists j, h. simpl. split_and!; [done|set_solver|done].
+  - intros j0 h0 c H0 Hc. destruct (Hlk _ _ H0) as [[-> ->]|[[-> ->]|(_ & _ & H1)]].
+    + exists j, h. simpl in *. split_and!; [done|set_solver|done].
+    + exists j, h. simpl in *. split_and!; [done|set_solver|done].
     + exists j0, h0. done.
   - intros j1 j2 h1 h2 Hne H1 H2 Hm1.
     destruct (Hlk _ _ H1) as [[-> ->]|[[-> ->]|(Ha1 & Hb1 & H1')]]; destruct (Hlk _ _ H2) as [[-> ->]|[[-> ->]|(Ha2 & Hb2 & H2')]]; cbn [h_cells h_mut] in *.
